@@ -364,6 +364,9 @@ func (g *gen) genCycleCloser() (Op, bool) {
 	if k.Group == "" && g.pct(30, "ccopt") {
 		pl[0].opt = true
 	}
+	if k.Group != "" && g.k.PSoft > 0 && g.pct(35, "ccsoft") {
+		pl[0].soft = true // a "cycle" through a soft edge
+	}
 	f.P = g.encodeParams(pl)
 	rl := rleaf{key: cd.hole}
 	if isIface(cd.hole.T) {
